@@ -1469,8 +1469,45 @@ fn panicking_destinations() -> ! {
             Err(_) => v.add("misbehaving-destination:global-damaged-after-a-sink-panic", format!("{}: installing the same kind of destination again panics", names[kind]), history("install again")),
         }
     }
+    // `with_test_sink(sink, f)` where `f` unwinds (caught by the caller): the scope is over, so the
+    // thread-local test sink is gone - routing falls back to the next destination, and a new
+    // thread-local test sink can be installed. Next destination: nothing / attached / runtime sink.
+    for next in 0..3usize {
+        let next_name = ["nothing installed", "an attached sink", "a runtime test sink"][next];
+        let history = json!({"history": [format!("next destination: {next_name}"), "with_test_sink(sink 41, || panic) - caught", "try_append(700)", "set_test_sink(sink 42)", "try_append(701)"]});
+        let att = (next == 1).then(|| VerifGlobal::attach((RecSink { inst: 43 }, RecHandle { inst: 43 })));
+        let rtg = (next == 2).then(|| VerifGlobal::set_test_sink_for_tokio_runtime(rt.handle(), BoxEntrySink::new(RecSink { inst: 44 })));
+        let r = catch_unwind(AssertUnwindSafe(|| VerifGlobal::with_test_sink(BoxEntrySink::new(RecSink { inst: 41 }), || std::panic::panic_any(ExpectedSinkPanic))));
+        transitions += 4;
+        if r.is_ok() {
+            v.add("with-test-sink:panic-not-propagated", "the closure's panic did not reach the caller of with_test_sink".to_string(), history.clone());
+        }
+        let probe = |id: u64| -> Result<(Option<u64>, Vec<u64>), ()> {
+            let before = lock(&LOG).len();
+            let r = catch_unwind(AssertUnwindSafe(|| rt.block_on(async { VerifGlobal::try_append(VEntry { id, tag: tag_of(id) }).err().map(|e| e.id) })));
+            let got: Vec<u64> = lock(&LOG)[before..].iter().filter_map(|e| if let Ev::Recv { inst, id: i, .. } = e { (*i == id).then_some(*inst) } else { None }).collect();
+            r.map(|back| (back, got)).map_err(|_| ())
+        };
+        let want: (Option<u64>, Vec<u64>) = match next { 0 => (Some(700), vec![]), 1 => (None, vec![43]), _ => (None, vec![44]) };
+        match probe(700) {
+            Ok(got) if got == want => {}
+            other => v.add("with-test-sink:scope-left-by-a-panic-still-routes", format!("next destination {next_name}: after with_test_sink's closure panicked (caught), an entry was {} instead of going to the next destination", match other { Err(()) => "answered with a panic".to_string(), Ok((back, got)) => format!("delivered to {got:?} (handed back: {})", back.is_some()) }), history.clone()),
+        }
+        match catch_unwind(AssertUnwindSafe(|| VerifGlobal::set_test_sink(BoxEntrySink::new(RecSink { inst: 42 })))) {
+            Ok(g) => {
+                match probe(701) {
+                    Ok((None, got)) if got == vec![42] => {}
+                    other => v.add("with-test-sink:scope-left-by-a-panic-still-routes", format!("next destination {next_name}: a thread-local test sink installed after the panicked scope did not receive the entry ({other:?})"), history.clone()),
+                }
+                drop(g);
+            }
+            Err(_) => v.add("with-test-sink:scope-left-by-a-panic-still-routes", format!("next destination {next_name}: installing a thread-local test sink after the panicked scope panics (the old one is still installed)"), history.clone()),
+        }
+        drop(rtg);
+        drop(att);
+    }
     let viol: Vec<J> = v.by_key.values().map(|v| json!({"key": v.key, "what": v.what, "replay": v.replay, "count": v.count})).collect();
-    println!("{}", json!({"histories": 3, "transitions": transitions, "cleanup_ops": 0, "restore_checks": 3, "states": [], "outcomes": vec![0u64; 13], "violations": viol, "aborted": false, "extra": {}}));
+    println!("{}", json!({"histories": 6, "transitions": transitions, "cleanup_ops": 0, "restore_checks": 6, "states": [], "outcomes": vec![0u64; 13], "violations": viol, "aborted": false, "extra": {}}));
     std::process::exit(0)
 }
 
@@ -1806,10 +1843,10 @@ fn parent_main() {
 
     // 2f. destinations whose append panics for one entry (caught by the caller)
     let outs_p = run_jobs(&[vec![s("panicking-destinations")]], 1);
-    if merge(&outs_p, &mut tot, &mut rep) != 3 {
+    if merge(&outs_p, &mut tot, &mut rep) != 6 {
         exhaustive = false;
     }
-    spaces_json.push(json!({"space": "fixed histories: an attached / thread-local / runtime destination whose append panics for one entry; the next entry, the guard's drop, the fall-back and a re-install must work", "histories_in_space": 3, "histories_executed": 3}));
+    spaces_json.push(json!({"space": "fixed histories: an attached / thread-local / runtime destination whose append panics for one entry (the next entry, the guard's drop, the fall-back and a re-install must work); with_test_sink whose closure panics, over nothing / an attached sink / a runtime test sink", "histories_in_space": 6, "histories_executed": 6}));
 
     // 3. forget anywhere: one fresh process per history
     let fa_cfg = EnumCfg { depth: forget_anywhere_len, sym: false, max_obs: unlimited, allow_forget: true };
